@@ -18,7 +18,10 @@ when the difference is confined to docstring constants with one normal form, and
 A recorded finding class stands for the kinds of failure it describes only (NEVER_ABSORBED, eval_surrogate): the safety
 clauses of the property (input file untouched, an error leaves the output file alone, no stray files, nothing is written
 that the formatter rejects) are broken by none of the recorded classes, so such a failure is a violation whatever class
-the call falls in."""
+the call falls in.  Likewise the recorded classes are classes of the modelled behaviour: a call in a recorded class on
+which the model of the code (c14_holds) satisfies the property while the real call does not - a pair of the command line
+that is silently skipped, a definition synchronised from an earlier state of the input file - is a violation with that
+call as failing input (it is a broken correspondence as well)."""
 import ast
 import collections
 import os
